@@ -108,8 +108,8 @@ def run(name, tier="quick", props=None):
     meta = json.load(open(os.path.join(d, "meta.json")))
     props = props or [meta["breaks_property"]]
     patch = os.path.join(d, "patch.diff")
-    wr = "/tmp/seedrun-%s-repo" % name
-    wv = "/tmp/seedrun-%s-verif" % name
+    wr = "/tmp/seedrun-%s-%d-repo" % (name, os.getpid())
+    wv = "/tmp/seedrun-%s-%d-verif" % (name, os.getpid())
     results = []
     try:
         sh("rm -rf %s %s" % (wr, wv))
